@@ -140,49 +140,39 @@ Qed.
 
 (* ---------- Commit *)
 
+Lemma commit_tail_err : forall o parents0 s1 e s', commit_tail o parents0 s1 = (Some e, s') -> s' = s1.
+Proof.
+  intros o parents0 s1 e s'. unfold commit_tail.
+  assert (Hfin : forall parents x s2, commit_finish parents s1 = (Some x, s2) -> False).
+  { intros parents x s2 H. unfold commit_finish in H. inversion H. }
+  destruct (if cm_amend o then _ else _) as [e0|parents]; [intro H; now inversion H|].
+  destruct (is_nil parents && is_nil (r_idx s1) && negb (cm_allow_empty o)); [intro H; now inversion H|].
+  destruct parents as [|p0 ps]; [intro H; exfalso; eapply Hfin; eauto|].
+  destruct (rtree_of s1 p0); [|intro H; now inversion H].
+  destruct (fmap_eqb (r_idx s1) f && negb (cm_allow_empty o)); [intro H; now inversion H|].
+  intro H; exfalso; eapply Hfin; eauto.
+Qed.
+
+(* a refused Commit leaves s, or s with the index Commit{All} stored *)
+Lemma commit_err_state : forall o s e s',
+  commit o s = (Some e, s') -> s' = if commit_stores_index o s then w_idx s (auto_add s) else s.
+Proof.
+  intros o s e s'. unfold commit, commit_stores_index.
+  destruct (cm_all o && cm_amend o); cbn [negb andb]; [intro H; now inversion H|].
+  destruct (negb (cm_author o) && negb (r_user s)); cbn [negb andb]; [intro H; now inversion H|].
+  destruct (cm_all o); cbn [andb].
+  - destruct (rhead_tree s); cbn [negb]; try (intro H; now inversion H); apply commit_tail_err.
+  - apply commit_tail_err.
+Qed.
+
 Lemma commit_err_shape : forall o s e s',
   commit o s = (Some e, s') ->
   s' = s \/ (cm_all o = true /\ s' = w_idx s (auto_add s)).
 Proof.
-  intros o s e s'. unfold commit.
-  destruct (cm_all o && cm_amend o); [intro H; inversion H; now left|].
-  destruct (negb (cm_author o) && negb (r_user s)); [intro H; inversion H; now left|].
-  assert (Hfin : forall parents s1 x s2, commit_finish parents s1 = (Some x, s2) -> False).
-  { intros parents s1 x s2 H. unfold commit_finish in H. inversion H. }
-  assert (Hrest : forall s1 : rstate,
-    (match (if cm_amend o
-            then match rhead_commit s1 with
-                 | None => inl XRefNotFound
-                 | Some h => match rcommit s1 h with None => inl XObjectNotFound | Some c => inr (c_parents c) end
-                 end
-            else inr (match rhead_commit s with Some h => [h] | None => [] end)) with
-     | inl e0 => (Some e0, s1)
-     | inr parents =>
-       if is_nil parents && is_nil (r_idx s1) && negb (cm_allow_empty o) then (Some XEmptyCommit, s1)
-       else match parents with
-            | [] => commit_finish parents s1
-            | p0 :: _ =>
-              match rtree_of s1 p0 with
-              | None => (Some XObjectNotFound, s1)
-              | Some pt =>
-                if fmap_eqb (r_idx s1) pt && negb (cm_allow_empty o) then (Some XEmptyCommit, s1)
-                else commit_finish parents s1
-              end
-            end
-     end) = (Some e, s') -> s' = s1).
-  { intros s1.
-    destruct (if cm_amend o then _ else _) as [e0|parents]; [intro H; now inversion H|].
-    destruct (is_nil parents && is_nil (r_idx s1) && negb (cm_allow_empty o)); [intro H; now inversion H|].
-    destruct parents as [|p0 ps]; [intro H; exfalso; eapply Hfin; eauto|].
-    destruct (rtree_of s1 p0); [|intro H; now inversion H].
-    destruct (fmap_eqb (r_idx s1) f && negb (cm_allow_empty o)); [intro H; now inversion H|].
-    intro H; exfalso; eapply Hfin; eauto. }
-  destruct (cm_all o) eqn:Ea.
-  - destruct (rhead_tree s) eqn:Eh.
-    + intro H. apply Hrest in H. right. now split.
-    + intro H. inversion H. now left.
-    + intro H. apply Hrest in H. right. now split.
-  - intro H. apply Hrest in H. now left.
+  intros o s e s' H. apply commit_err_state in H. revert H. unfold commit_stores_index.
+  destruct (cm_all o).
+  - destruct (_ && _ && true && _); intro H; [right; now split | now left].
+  - rewrite andb_false_r. cbn [andb]. intro H. now left.
 Qed.
 
 Lemma commit_err_unchanged_partial : forall o s e s',
